@@ -6,7 +6,7 @@ from props import _hrs
 SPEC = {
     "uses_gen": ["Fee", "CoinHours", "Droplet", "VerifyParams", "CoinLoops", "FeeTxn"],   # closes over Mathutil
     "cmd": "c11",
-    "budget": (500, 10000),
+    "budget": (300, 10000),
     "header": "From Sky Require Import Base.Uint Model.ArithSpec Model.HoursSpec Model.SoftSpec.\nOpen Scope Z_scope.",
     "gen_header": "From Sky Require Import Gen.Mathutil Gen.Fee Gen.Droplet Gen.CoinHours Gen.VerifyParams Model.Hours Model.Soft.",
     "corr": "C11_corr.v",
@@ -19,12 +19,14 @@ SPEC = {
         "locked": ("mism_locked", "pf_locked"),
         "params": ("mism_params", "pf_params"),
         "vfee": ("mism_vfee", "pf_vfee"),
+        "entry": ("mism_entry", "pf_entry"),   # call-site level: each entry point of a real visor applies its own parameter set
     },
     "search_seeds": 2,
     "trusted_base": [
         "translator /verif/translator (Go->Gallina) for fee.VerifyTransactionFeeForHours, RequiredFee, params.DropletPrecisionCheck / DropletPrecisionToDivisor, VerifyTxn.Validate, UxOut.CoinHours, AddUint64 and (loops over slices / method calls, Gen/FeeTxn.v, Gen/CoinLoops.v) fee.TransactionFee, fee.VerifyTransactionFee, UxArray.CoinHours, Transaction.OutputHours — regenerated on this run; validated here (params, vfee groups) and by C31 (groups l_*)",
         "fee.TransactionFee, fee.VerifyTransactionFee of Model/Soft.v and the loops of Model/Hours.v they call are PROVED equal to the regenerated Gen/FeeTxn.v / Gen/CoinLoops.v for all inputs (C11_*_is_translated, Proofs/SoftRefine.v, Proofs/HoursRefine.v); still hand-written and compared with the running code on this run's cases: the statement order of verifyTxnSoftConstraints, TransactionIsLocked, the precision loop",
         "encoded size and its error are data computed by the implementation (txn.Size()); addresses are ids, the harness maps distinct addresses to distinct ids (checked when the pool is built)",
+        "call-site level (group entry): real visor.Visor with differing user / unconfirmed / create-block parameter sets; Visor.InjectUserTransaction, InjectForeignTransaction, CreateBlockFromTxns on the same transactions; the wallet-API call sites (CreateTransaction etc.) and the daemon gateway wrapper are not exercised",
         "harness generator, Coq-term printer, error classes by the Go TYPE of the wrapper (ErrTxnViolatesSoftConstraint / HardConstraint), names by sentinel identity",
     ],
     "assumptions": [
